@@ -823,7 +823,11 @@ def _model_side(ctx: Any, W: Any, cases: list[dict[str, Any]], results: list[tup
     # quick tier: the implementation and the oracle see every bit flip; the (much slower) model is evaluated on the
     # flips of every 4th text position (all 8 bits) and on every case of all other classes
     if ctx.tier == "quick":
-        keep = [n for n, c in enumerate(cases) if not (c["cls"].startswith("flip-text") and (c.get("cur_sym") or c.get("call_sym"))[2] % 4 != 0)]
+        def thin(c: dict[str, Any]) -> bool:
+            sym = c.get("cur_sym") or c.get("call_sym")
+            return c["cls"].startswith("flip-text") and sym is not None and sym[2] % 4 != 0
+
+        keep = [n for n, c in enumerate(cases) if not thin(c)]
         cases = [cases[n] for n in keep]
         results = [results[n] for n in keep]
     mcases = []
